@@ -48,6 +48,17 @@ def extreme_archives(rng, sc):
         m = arc.Member(level=lvl, method=b"-lh5-", name=b"big" if lvl < 2 else b"", payload=b"\0" * 40, length=0xFFFFFFFF, crc=0,
                        packed=0xFFFFFFF0 if lvl != 1 else 0xFFFFF000, exts=[arc.x_name(b"big")] if lvl >= 1 else [])
         put("huge_l%d" % lvl, ok + m.bytes())
+    # compressed sizes that, taken as signed 32-bit numbers, point back to an earlier header (or to the member's own):
+    # skipping such a member must go forward (and meet the end of the archive), never back
+    for lvl in (0, 1, 2):
+        m = arc.Member(level=lvl, method=b"-lh0-", name=b"back" if lvl < 2 else b"", payload=b"", length=5, crc=0,
+                       exts=[arc.x_name(b"back")] if lvl == 2 else [])
+        own = len(m.bytes())
+        for tag, k in (("own", own), ("prev", own + len(ok)), ("mid", own + 3), ("one", 1), ("half", 0x80000000)):
+            m2 = arc.Member(level=lvl, method=b"-lh0-", name=b"back" if lvl < 2 else b"", payload=b"", length=5, crc=0, packed=(1 << 32) - k,
+                            exts=[arc.x_name(b"back")] if lvl == 2 else [])
+            put("back_l%d_%s" % (lvl, tag), ok + m2.bytes())
+            put("back_l%d_%s_then" % (lvl, tag), ok + m2.bytes() + ok + b"\0")
     # decoders that never run dry / loop on themselves, declared 4 GiB
     payloads = {
         "-pm1-": b"",                              # continues on implicit zero bits for ever
